@@ -38,6 +38,14 @@ selftest/mutants/F20-reintroduce.patch C03 thorough
 selftest/mutants/F21-reintroduce.patch C01
 selftest/mutants/F22-reintroduce.patch C01
 selftest/mutants/F23-reintroduce.patch C07
+seeded/C15-c/patch.diff C15
+seeded/C19-c/patch.diff C19
+seeded/C11-c/patch.diff C11
+seeded/C02-c/patch.diff C02
+seeded/C08-c/patch.diff C08
+seeded/C20-c/patch.diff C20
+seeded/C03-c/patch.diff C03
+seeded/C10-c/patch.diff C10
 seeded/C01-a/patch.diff C01
 seeded/C02-a/patch.diff C02
 seeded/C03-a/patch.diff C03
